@@ -2,7 +2,11 @@ CFG = {
     "level_text": "Machine-checked Lean 4 theorems over two hand-written models of the code that exists. (1) sharedPacketConn "
                   "(reference-counted handles): for any number of handles and any operation sequence the underlying Close is "
                   "called exactly once, at the last distinct handle's close; closing a handle fails its own parked and later I/O "
-                  "and changes no result of any sibling. (2) the lock-free writeState protocol of udp_mux.go as a concurrent "
+                  "and makes no sibling operation fail (reads, writes, the three deadline setters: same result, or a write that "
+                  "timed out under the closing handle's deadline succeeds now); the same for the abortIO sequence on one handle "
+                  "(SetDeadline(now), abortWrite, Close) for both kinds of underlying connection (udpMuxedConn ignoring, "
+                  "tcpPacketConn honouring a forwarded write deadline); invariant: the shared write-deadline register is armed only "
+                  "while an OPEN handle holds it (fix F33). (2) the lock-free writeState protocol of udp_mux.go as a concurrent "
                   "program with ANY number of writer and aborter threads, one transition per atomic step, all interleavings and "
                   "environment choices: inductive invariant I1-I8 (count = #writers in flight; one epoch owner; one clearing "
                   "writer; deadline register armed => blocked), hence at quiescence writeState = 0, the socket deadline is zero "
@@ -25,12 +29,16 @@ CFG = {
         {"component": "shared", "session_start": "new", "trivial_regex": r"^(skip|bad-.*)$", "shrink_s": 30},
         {"component": "writeabort", "trivial_regex": r"^(bad-.*)$", "timeout_quick": 300, "timeout_thorough": 1500, "shrink_s": 5},
     ],
-    "rule": "shared: boundary sessions + random sessions (quick 150, thorough 20000) of open/close/read/write/setrd/setwd/feed over "
-            "<= 8 handles for each of fake / UDP mux / TCP mux underlying connections; distinct = distinct (operation, output) lines. "
-            "writeabort: 28 deterministic schedules built from the scripted socket (10 over a plain socket / the net.Addr write path; "
-            "18 over an AddrPort-capable socket or mixing both write paths: a write that fails with a non-deadline error followed "
+    "rule": "shared: boundary sessions (incl. 10 per kind with SetReadDeadline/SetWriteDeadline/SetDeadline past|zero and the abortIO "
+            "sequence on one handle while siblings stay open) + random sessions (quick 200, thorough 24000) of "
+            "open/close/abort/read/write/writeap/setrd/setwd/setd/feed over "
+            "<= 8 handles for each of fake / UDP mux / TCP mux / UDP mux over an AddrPort-capable socket (sharedAddrPortConn handles) "
+            "underlying connections; distinct = distinct (operation, output) lines. "
+            "writeabort: 30 deterministic schedules built from the scripted socket (10 over a plain socket / the net.Addr write path; "
+            "20 over an AddrPort-capable socket or mixing both write paths or socket-call windows: a write that fails with a non-deadline error followed "
             "by an abort of the other user and writes by everybody, a failing write beside a blocked one, a blocked write released "
-            "with an error, aborted / cancelled / spinning writers on the AddrPort path) + the F11 schedule (retried until reached) + "
+            "with an error, aborted / cancelled / spinning writers on the AddrPort path; a write of another user started while the last aborted "
+            "writer is inside SetWriteDeadline(zero)) + the F11 schedule (retried until reached) + "
             "randomised concurrent runs (quick 1500, thorough 60000; 2/3 of them on an AddrPort-capable socket; 1-5 writers with "
             "background/cancellable contexts directly or through handles of two ufrags, non-cancellable ones over the net.Addr or the "
             "netip.AddrPort path, socket outcomes ok / error / blocks until deadline or released, 0-3 aborters, scripted "
@@ -41,6 +49,8 @@ CFG = {
                      "OS socket deadline semantics are those of the scripted socket (harness/inpkg/zz_verif_writeabort_test.go)",
                      "load+CAS loop iteration modelled as one atomic step at the CAS (failed CAS = stutter)"],
     "assumptions": ["C13_*_partial: SetWriteDeadline(time.Now()) does not fail (excluded point = finding F11, witness theorems + replay)",
+                    "a write deadline held by a still-open handle is shared with its siblings by design (observation statistic, not a "
+                    "violation); the underlying SetWriteDeadline(zero) issued by Close does not fail",
                     "C13_refcount: no handle is requested for an underlying connection that is already closed (muxes create a new one)",
                     "SetWriteDeadline(time.Time{}) does not fail; fewer than 2^62 concurrent writers"],
 }
